@@ -239,7 +239,10 @@ MALFORMED = {
             ("renamed columns", lambda a: (pd.DataFrame(a[0], columns=["zz%d" % j for j in range(a[0].shape[1])]),))],
     "batch": [("one observation", lambda a: (a[0].iloc[:1],)), ("extra column", lambda a: (a[0].assign(extra=1.0),)),
               ("renamed columns", lambda a: (a[0].rename(columns={a[0].columns[0]: "zz"}),)),
-              ("array with another width", lambda a: (np.hstack([a[0].values, np.ones((len(a[0]), 1))]),))],
+              ("array with another width", lambda a: (np.hstack([a[0].values, np.ones((len(a[0]), 1))]),)),
+              # the whole history is fed as plain arrays (no column names are ever established), then a wider frame arrives
+              ("wider DataFrame after a history of arrays", lambda a: (pd.DataFrame(np.hstack([np.asarray(a[0]), np.ones((len(a[0]), 2))]),
+                                                                                 columns=["p%d" % j for j in range(np.asarray(a[0]).shape[1] + 2)]),))],
 }
 
 
@@ -252,6 +255,8 @@ def check_rejected_call(scn):
     st = C.stream(name, seed, n)
     if kind == "row" and "renamed" in label:
         st = [(pd.DataFrame(a[0], columns=["c%d" % j for j in range(a[0].shape[1])]),) for a in st]
+    if kind == "batch" and "history of arrays" in label:
+        st = [(np.array(a[0].values, dtype=float),) for a in st]
     ref, _ = run_trace(name, variant, seed, n, stream=st)
     det, params, pos = start(name, variant, seed, st)
     out = []
@@ -383,6 +388,8 @@ ENCODINGS = [
     # the two members of a pair arrive with different numeric types: agreeing pairs (k, float(k)), disagreeing pairs (k, k + 0.5)
     ("int label / float prediction", "mixed"),
     ("numbered class names", "numbered"),
+    # distinct float labels that are closer than any sensible tolerance: still different classes
+    ("nearly equal floats", lambda v: 0.5 if v == 0 else 0.5 + 1e-9),
 ]
 
 
@@ -480,7 +487,8 @@ THRESHOLDS = {
     "NNDVI": [("alpha", 0.01, 0.3), ("alpha", 0.015, 0.02, {"sampling_times": 500}), ("alpha", 0.04, 0.06, {"sampling_times": 200}),
               ("alpha", 0.09, 0.11, {"sampling_times": 100}), ("alpha", 0.019, 0.021, {"sampling_times": 500}),
               ("alpha", 0.01, 0.05, {"sampling_times": 300})],
-    "HDDDM": [("significance", 0.01, 0.3)], "CDBD": [("significance", 0.01, 0.3)],
+    "HDDDM": [("significance", 0.01, 0.3), ("significance", 0.05, 0.6), ("significance", 0.2, 0.9)],
+    "CDBD": [("significance", 0.01, 0.3), ("significance", 0.05, 0.6), ("significance", 0.2, 0.9)],
 }
 WARNINGS = {
     "DDM": [("warning_scale", 2.0, 0.3)], "EDDM": [("warning_thresh", 0.9, 0.99)],
@@ -514,13 +522,43 @@ def check_threshold(scn):
                 par, over_s[par], fs, par, over_l[par], fl, extra)
         return len(ts) * 2, fl is not None, None
     if name in ("HDDDM", "CDBD") and C.DETECTORS[name]["variants"][variant % len(C.DETECTORS[name]["variants"])].get("statistic") == "stdev":
-        over_s, over_l = {par: 3.0}, {par: 0.5}       # number of standard deviations: larger is stricter
+        # number of standard deviations: larger is stricter (also fractional counts below one deviation)
+        over_s, over_l = [({par: 3.0}, {par: 0.5}), ({par: 0.6}, {par: 0.05}), ({par: 0.9}, {par: 0.2})][k % 3]
     ts, _ = run_trace(name, variant, seed, n, override=over_s)
     tl, _ = run_trace(name, variant, seed, n, override=over_l)
     fs, fl = first_index(ts, "drift"), first_index(tl, "drift")
     if fs is not None and (fl is None or fs < fl):
         return len(ts) * 2, True, "stricter %s=%r alarms first at %s, looser %s=%r at %s" % (par, over_s[par], fs, par, over_l[par], fl)
     return len(ts) * 2, fl is not None, None
+
+
+def check_hdm_stdev(scn):
+    """HDDDM / CDBD with statistic='stdev' (threshold = mean + significance * standard deviation of the earlier epsilons,
+    detect_batch=3: no bootstrap) on a history that is stationary for a few batches and then creeps: a larger number of
+    standard deviations - also a fractional one - must never alarm on an earlier batch"""
+    from menelaus.data_drift import HDDDM, CDBD
+    seed, strict, loose, name = scn["seed"], scn["strict"], scn["loose"], scn["det"]
+    d = 1 if name == "CDBD" else 2
+    firsts = []
+    for sig in (strict, loose):
+        rng = np.random.RandomState(seed)
+        ref = pd.DataFrame(rng.normal(size=(120, d)), columns=["c%d" % j for j in range(d)])
+        det = (CDBD if name == "CDBD" else HDDDM)(detect_batch=3, statistic="stdev", significance=sig)
+        det.set_reference(ref)
+        first = None
+        for i in range(scn["n"]):
+            shift = 0.0 if i < 4 else scn["slope"] * (i - 3)
+            b = pd.DataFrame(rng.normal(shift, 1.0, size=(120, d)), columns=list(ref.columns))
+            det.update(b)
+            if det.drift_state == "drift":
+                first = i
+                break
+        firsts.append(first)
+    fs, fl = firsts
+    if fs is not None and (fl is None or fs < fl):
+        return scn["n"] * 2, True, "%s (stdev): stricter significance=%r alarms first at batch %s, looser significance=%r at %s" % (
+            name, strict, fs, loose, fl)
+    return scn["n"] * 2, fl is not None, None
 
 
 def check_nndvi_alpha(scn):
@@ -883,7 +921,7 @@ CHECKS = {
     "lifecycle": check_lifecycle, "clean_slate": check_clean_slate, "set_reference": check_set_reference,
     "rejected_call": check_rejected_call, "containers": check_containers, "mixed_width": check_mixed_width, "agreement_only": check_agreement_only,
     "unused_args": check_unused_args, "threshold": check_threshold, "warning_threshold": check_warning_threshold,
-    "nndvi_alpha": check_nndvi_alpha, "row_order": check_row_order, "row_order_replay": check_row_order_replay, "row_order_large": check_row_order_large, "row_order_coarse": check_row_order_coarse, "nnps_order": check_nnps_order, "no_alias": check_no_alias, "no_alias_reref": check_no_alias_reref,
+    "nndvi_alpha": check_nndvi_alpha, "hdm_stdev": check_hdm_stdev, "row_order": check_row_order, "row_order_replay": check_row_order_replay, "row_order_large": check_row_order_large, "row_order_coarse": check_row_order_coarse, "nnps_order": check_nnps_order, "no_alias": check_no_alias, "no_alias_reref": check_no_alias_reref,
 }
 
 REPLAY = '''import sys, warnings
